@@ -36,6 +36,8 @@ import (
 
 	"lunar/engine/actions"
 	lunar_messages "lunar/engine/messages"
+	"lunar/engine/metrics"
+	"lunar/engine/routing"
 	"lunar/engine/streams"
 	stream_config "lunar/engine/streams/config"
 	lunar_context "lunar/engine/streams/lunar-context"
@@ -49,6 +51,9 @@ import (
 	context_manager "lunar/toolkit-core/context-manager"
 	"lunar/toolkit-core/verifhook"
 
+	"github.com/negasus/haproxy-spoe-go/message"
+	"github.com/negasus/haproxy-spoe-go/payload/kv"
+	"github.com/negasus/haproxy-spoe-go/request"
 	"github.com/rs/zerolog"
 
 	"verif/harness/internal/lockfacts"
@@ -279,6 +284,7 @@ type sim struct {
 	l1      public_types.SharedQueueI
 	engine  bool // the processor is reached through the real streams.Stream built from YAML
 	stream  *streams.Stream
+	handler routing.MessageHandler // the real SPOE message handler of routing over that stream
 	tmpdir  string
 	timers0 int // number of timers on the mock clock when the loop is parked
 	duo     bool // two processors A (0) and B (1) on one shared state and one quota
@@ -341,7 +347,11 @@ func (s *sim) setup(w []string) string {
 		if len(anc) > 0 {
 			return "bad-op"
 		}
-		return s.setupEngine(size, ttl, max, win, t0)
+		pre, _ := proto.KV(w, "pre")
+		if pre != "" && pre != "0" && pre != "1" {
+			return "bad-op"
+		}
+		return s.setupEngine(size, ttl, max, win, t0, pre == "1")
 	}
 	if mode == "real" && max != 0 {
 		return "bad-op"
@@ -609,7 +619,7 @@ func (s *sim) tick2(w []string) string {
 const engineFlowYAML = `name: QueueFlow
 filter:
   url: api.example.com/*
-processors:
+processors:%[5]s
   TheQueue:
     processor: Queue
     parameters:
@@ -635,13 +645,7 @@ processors:
         value: text/plain
 flow:
   request:
-    - from:
-        stream:
-          name: globalStream
-          at: start
-      to:
-        processor:
-          name: TheQueue
+%[6]s
     - from:
         processor:
           name: TheQueue
@@ -688,7 +692,38 @@ func waitersInQueue() int {
 	return strings.Count(string(buf[:n]), "processors/queue.(*Request).Wait")
 }
 
-func (s *sim) setupEngine(size, ttl, max, win, t0 int64) string {
+const engineStartDirect = `    - from:
+        stream:
+          name: globalStream
+          at: start
+      to:
+        processor:
+          name: TheQueue`
+
+// a request-rewriting processor (it always answers with a modify-request action) before the Queue
+const engineStartViaTransform = `    - from:
+        stream:
+          name: globalStream
+          at: start
+      to:
+        processor:
+          name: Tag
+    - from:
+        processor:
+          name: Tag
+      to:
+        processor:
+          name: TheQueue`
+
+const engineTransformProc = `
+  Tag:
+    processor: TransformAPICall
+    parameters:
+      - key: set
+        value:
+          "$.request.headers['x-c06-tag']": "tagged"`
+
+func (s *sim) setupEngine(size, ttl, max, win, t0 int64, pre bool) string {
 	os.Setenv("LUNAR_SPOE_PROCESSING_TIMEOUT_SEC", "30")
 	dir, err := os.MkdirTemp("", "c06-engine-")
 	if err != nil {
@@ -707,7 +742,11 @@ func (s *sim) setupEngine(size, ttl, max, win, t0 int64) string {
 	for p := 0; p <= 20; p++ {
 		fmt.Fprintf(&groups, "          g%d: %d\n", p, p)
 	}
-	flow := fmt.Sprintf(engineFlowYAML, "EQ", ttl, size, strings.TrimRight(groups.String(), "\n"))
+	procs, start := "", engineStartDirect
+	if pre {
+		procs, start = engineTransformProc, engineStartViaTransform
+	}
+	flow := fmt.Sprintf(engineFlowYAML, "EQ", ttl, size, strings.TrimRight(groups.String(), "\n"), procs, start)
 	if os.WriteFile(filepath.Join(dir, "quotas", "quotas.yaml"), []byte(quotas), 0o644) != nil ||
 		os.WriteFile(filepath.Join(dir, "flows", "flow.yaml"), []byte(flow), 0o644) != nil {
 		return "err:tmp"
@@ -743,6 +782,10 @@ func (s *sim) setupEngine(size, ttl, max, win, t0 int64) string {
 		return "err:initialize:" + proto.Enc(err.Error())
 	}
 	s.stream = st
+	// the verdict is observed where it leaves the engine: the SPOE actions the real message handler of
+	// routing answers HAProxy with (return_early_response = true: the request is NOT forwarded)
+	mm, _ := metrics.NewMetricManager()
+	s.handler = routing.VerifHandlerForStream(st, mm)
 	if !s.until(func() bool { return timersLen(s.mock) >= 1 }, 5*time.Second) {
 		return "stuck:loop-start"
 	}
@@ -758,9 +801,21 @@ func (s *sim) spawnEngine(id int, prio string) *reqRec {
 	if prio != "none" {
 		hdr["x-prio"] = "g" + prio
 	}
-	api := stream_types.NewRequestAPIStream(lunar_messages.OnRequest{
-		ID: r.sid, SequenceID: r.sid, Method: "GET", Scheme: "https", URL: "api.example.com/x", Path: "/x",
-		Headers: hdr}, sharedBytes)
+	var hb strings.Builder
+	for k, v := range hdr {
+		hb.WriteString(k + ": " + v + "\r\n")
+	}
+	keyValues := kv.NewKV()
+	keyValues.Add("id", r.sid)
+	keyValues.Add("sequence_id", r.sid)
+	keyValues.Add("method", "GET")
+	keyValues.Add("scheme", "https")
+	keyValues.Add("url", "api.example.com/x")
+	keyValues.Add("path", "/x")
+	keyValues.Add("query", "")
+	keyValues.Add("headers", hb.String())
+	keyValues.Add("body", []byte(""))
+	sreq := &request.Request{Messages: &message.Messages{{Name: "lunar-on-request", KV: keyValues}}}
 	s.reqs = append(s.reqs, r)
 	go func() {
 		defer close(r.done)
@@ -769,24 +824,22 @@ func (s *sim) spawnEngine(id int, prio string) *reqRec {
 				r.verdict = "panic:" + proto.Enc(fmt.Sprint(p))
 			}
 		}()
-		acts := &stream_config.StreamActions{Request: &stream_config.RequestStream{}, Response: &stream_config.ResponseStream{}}
-		err := s.stream.ExecuteFlow(api, acts)
+		s.handler(sreq)
 		r.lat = time.Since(r.started)
-		if err != nil {
-			r.verdict = "err"
-			return
-		}
 		r.verdict = "allowed"
-		for _, a := range acts.Request.Actions {
-			if _, ok := a.(*actions.EarlyResponseAction); ok {
-				r.verdict = "blocked"
+		for _, a := range sreq.Actions {
+			if a.Name == actions.ReturnEarlyResponseActionName {
+				if flag, ok := a.Value.(bool); ok && flag {
+					r.verdict = "blocked"
+				}
 			}
 		}
 	}()
 	return r
 }
 
-// arriveEngine: one ExecuteFlow call through the Queue flow.  `queued` = the call is parked in the
+// arriveEngine: one lunar-on-request message through the real SPOE handler (which runs ExecuteFlow on the
+// Queue flow and folds the flow's actions into the answer for HAProxy).  `queued` = the call is parked in the
 // processor's queue; `blocked` = it returned at once with the early response; `pending` = it is in
 // flight but has neither returned nor reached the queue within 1.5 s.
 func (s *sim) arriveEngine(w []string) string {
@@ -2304,7 +2357,12 @@ func genEngine(r *prng.R) []string {
 	if r.Chance(30) {
 		ttl = 1
 	}
-	ops := []string{fmt.Sprintf("cfg size=10 ttl=%d max=%d win=%d t0=%d mode=engine", ttl, r.Range(1, 2), r.Range(1, 2), baseMs+100*r.Intn(10))}
+	max, win := r.Range(1, 2), r.Range(1, 2)
+	if r.Chance(30) {
+		max, win, ttl = 1, 3, 1 // a long window: most requests run out of their TTL and must leave the engine refused
+	}
+	ops := []string{fmt.Sprintf("cfg size=10 ttl=%d max=%d win=%d t0=%d mode=engine pre=%d", ttl, max, win,
+		baseMs+100*r.Intn(10), r.Intn(2))}
 	id := 0
 	for n := r.Range(10, 26); n > 0; n-- {
 		if (id < 2 || r.Chance(25)) && id < 8 {
